@@ -647,7 +647,7 @@ let cmd_ghwh (args : string list) : string =
   match args with
   | [dbg; path] ->
     let debug = dbg = "1" in
-    let (_, res) = get (GhwHier.ghw_read_header debug (read_file_bytes path)) in
+    let (_, res) = get (GhwFile.ghw_read_header_file debug (read_file_bytes path)) in
     let calls = res.GhwHier.ghr_calls in
     let ops = Stdlib.List.concat_map FstHier.hier_op_of calls in
     let b = get (Hierarchy.hier_run Hierarchy.hb_new ops) in
